@@ -234,6 +234,9 @@ def tr_e(c, e):
             a, b = as_N(c, e[2]), as_N(c, e[3])
             ta = 'N'
         return ('(if %s then %s else %s)' % (as_bool(c, e[1]), a, b), ta)
+    if k == 'call' and c.havoc and e[1][0] == 'field' and e[1][1][0] == 'var' and e[1][1][1] in c.opaque and e[1][2].split('::')[-1] == 'size' and not e[2] \
+            and szname(e[1][1][1]) in c.types:
+        return (szname(e[1][1][1]), 'N')
     if k == 'call':
         name = callee_name(e[1])
         args = [('0', 'N') if (c.havoc and a[0] == 'var' and a[1] in c.opaque) else tr_e(c, a) for a in e[2]]
@@ -302,6 +305,59 @@ def havoc_call(c, s):
 
 
 OPAQUE_TYPES = ('ByteString', 'std::string', 'std::basic_string<char>')
+
+
+CONST_METHODS = ('size', 'byte_str', 'const_byte_str', 'hex_str', 'long_val', 'bits', 'c_str', 'length', 'empty')
+
+
+def szname(v):
+    return 'szv_' + ident(v)
+
+
+def fresh_size(c, v, declare=True):
+    c.fresh += 1
+    nm = 'hv%d_%s_size' % (c.fresh, ident(v))
+    if declare:
+        c.extern(nm, 'N')
+    return nm
+
+
+def uses_name(term, nm):
+    """does the name occur other than as a binder (`let nm :=`, `(nm : T)`)?  (an over-approximation of `occurs free`)"""
+    t = re.sub(r'let ' + re.escape(nm) + r' :=', 'let _ :=', term)
+    t = re.sub(r'\(' + re.escape(nm) + r' : ', '(_ : ', t)
+    return re.search(r'(?<![A-Za-z0-9_])' + re.escape(nm) + r'(?![A-Za-z0-9_])', t) is not None
+
+
+def mutated_opaque(c, x):
+    """class-typed locals whose size() may change in the IR tree x: handed over by non-const reference, address taken,
+    assigned, or a non-const method called on them (memcpy / memset into them change bytes, not the size)"""
+    out = set()
+
+    def f(n):
+        k = n[0]
+        if k == 'refarg' and isinstance(n[1], str) and n[1] in c.opaque:
+            out.add(n[1])
+        elif k == 'un' and len(n) == 3 and n[1] == '&' and isinstance(n[2], tuple) and n[2][0] == 'var' and n[2][1] in c.opaque:
+            out.add(n[2][1])
+        elif k == 'call' and n[1][0] == 'field' and n[1][1][0] == 'var' and n[1][1][1] in c.opaque and n[1][2].split('::')[-1] not in CONST_METHODS:
+            out.add(n[1][1][1])
+        elif k == 'bin' and len(n) == 4 and isinstance(n[1], str) and n[1].endswith('=') and n[1] not in ('==', '!=', '<=', '>=', 'op==', 'op!='):
+            t = n[2]
+            if t[0] == 'var' and t[1] in c.opaque:
+                out.add(t[1])
+    walk_ir(x, f)
+    return out
+
+
+def size_havoc(c, vs, body):
+    """wrap the term-producing thunk `body` in re-bindings of the size pseudo-variables of vs to fresh values"""
+    binds = [(szname(v), fresh_size(c, v, declare=False)) for v in sorted(vs) if szname(v) in c.types]
+    inner = body()
+    binds = [b for b in binds if uses_name(inner, b[0])]          # a size nobody reads afterwards needs no name
+    for (_, nm) in binds:
+        c.extern(nm, 'N')
+    return ''.join('(let %s := %s in ' % b for b in binds) + inner + ')' * len(binds)
 
 
 def is_opaque_type(ty):
@@ -441,6 +497,26 @@ def tr_s_inner(c, ss, k_fall, k_break):
         return k_fall
     s, rest = ss[0], ss[1:]
     k = s[0]
+    if c.havoc and k in ('if', 'expr', 'decl', 'switch') and not getattr(c, 'no_split', False):
+        # a call inside this statement's own expression may change a class-typed local (non-const reference argument):
+        # evaluate the expression first, then re-bind the local's size, then go on
+        if k == 'if':
+            m = mutated_opaque(c, [s[1]])
+            if m:
+                c.fresh += 1
+                cn = 'cnd%d' % c.fresh
+                return tr_s(c, [('decl', cn, 'bool', s[1]), ('sizehavoc', sorted(m)), ('if', ('var', cn), s[2], s[3])] + list(rest), k_fall, k_break)
+        elif k == 'switch':
+            if mutated_opaque(c, [s[1]]):
+                raise Unsupported('switch on an expression that changes a class-typed local')
+        elif k == 'expr' and not writes_only_opaque(c, s[1]):
+            m = mutated_opaque(c, [s[1]])
+            if m and not (rest and rest[0][0] == 'sizehavoc'):
+                return tr_s(c, [s, ('sizehavoc', sorted(m))] + list(rest), k_fall, k_break)
+        elif k == 'decl' and not is_opaque_type(s[2]) and s[3] is not None:
+            m = mutated_opaque(c, [s[3]])
+            if m and not (rest and rest[0][0] == 'sizehavoc'):
+                return tr_s(c, [s, ('sizehavoc', sorted(m))] + list(rest), k_fall, k_break)
     if k == 'ret':
         if s[1] is None:
             raise Unsupported('void return')
@@ -479,12 +555,42 @@ def tr_s_inner(c, ss, k_fall, k_break):
             eff = '(18446744073709551613, 0)'
         if eff is not None:
             return '(let acc := %s :: acc in %s)' % (eff, tr_s(c, rest, k_fall, k_break))
+    if c.havoc and k == 'sizehavoc':
+        return size_havoc(c, s[1], lambda: tr_s(c, rest, k_fall, k_break))
     if c.havoc and k == 'decl' and is_opaque_type(s[2]):
         c.opaque.add(s[1])
         c.types.pop(s[1], None)
+        if s[2].replace('const ', '') == 'ByteString':
+            # its size() is a pseudo-variable szv_<name>, re-bound whenever the local may change
+            init = s[3]
+            sz = None
+            if init is None or (init[0] == 'ctor' and not init[2]):
+                sz = '0'
+            elif init[0] == 'ctor' and len(init[2]) == 2:
+                try:
+                    sz = as_N(c, init[2][1])            # ByteString(ptr, len)
+                except Unsupported:
+                    sz = None
+            lazy = sz is None
+            if lazy:
+                sz = fresh_size(c, s[1], declare=False)
+            c.types[szname(s[1])] = 'N'
+            extra = [('sizehavoc', sorted(mutated_opaque(c, [init]) - {s[1]}))] if init is not None and mutated_opaque(c, [init]) - {s[1]} else []
+            inner = tr_s(c, extra + list(rest), k_fall, k_break)
+            if not uses_name(inner, szname(s[1])):
+                return inner
+            if lazy:
+                c.extern(sz, 'N')
+            return '(let %s := %s in %s)' % (szname(s[1]), sz, inner)
         return tr_s(c, rest, k_fall, k_break)
     if c.havoc and k == 'expr' and writes_only_opaque(c, s[1]):
-        return tr_s(c, rest, k_fall, k_break)
+        e = s[1]
+        if e[0] == 'call' and e[1][0] == 'field' and e[1][1][0] == 'var' and e[1][2].split('::')[-1] == 'resize' and len(e[2]) == 1 and szname(e[1][1][1]) in c.types:
+            try:
+                return '(let %s := %s in %s)' % (szname(e[1][1][1]), as_N(c, e[2][0]), tr_s(c, rest, k_fall, k_break))
+            except Unsupported:
+                pass
+        return size_havoc(c, mutated_opaque(c, [e]), lambda: tr_s(c, rest, k_fall, k_break))
     if c.havoc and k == 'expr' and is_cleanup(s[1]):
         return tr_s(c, rest, k_fall, k_break)
     if c.skip_setters and k == 'expr' and is_unread_setter(c, s[1]):
@@ -557,9 +663,12 @@ def tr_s_inner(c, ss, k_fall, k_break):
                 c.depth -= 1
             return r
         assigned = assigned_vars(s[2]) | assigned_vars(s[3])
+        if c.havoc:
+            assigned |= {szname(v) for v in mutated_opaque(c, [s[2], s[3]])}
         kvars = [(ident(v), c.types[v]) for v in sorted(assigned) if v in c.types]
         saved = dict(c.types)
         krest = tr_s(c, rest, k_fall, k_break)
+        kvars = [kv for kv in kvars if not kv[0].startswith('szv_') or uses_name(krest, kv[0])]
         c.fresh += 1
         kn = 'k%d' % c.fresh
         types_after = dict(c.types)
@@ -577,8 +686,9 @@ def tr_s_inner(c, ss, k_fall, k_break):
         v = as_N(c, s[1])
         body = s[2]
         saved = dict(c.types)
-        kvars = [(ident(x), c.types[x]) for x in sorted(assigned_vars(body)) if x in c.types]
+        kvars = [(ident(x), c.types[x]) for x in sorted(assigned_vars(body) | ({szname(v) for v in mutated_opaque(c, [body])} if c.havoc else set())) if x in c.types]
         krest = tr_s(c, rest, k_fall, k_break)
+        kvars = [kv for kv in kvars if not kv[0].startswith('szv_') or uses_name(krest, kv[0])]
         c.fresh += 1
         kn = 'k%d' % c.fresh
         vn = 'sw%d' % c.fresh
@@ -730,7 +840,12 @@ def havoc_loop(c, s, rest, k_fall, k_break):
             c.extern(pn, c.types[v])
             binds.append((ident(v), pn))
     c.written_derefs |= derefs
+    szb = [(szname(v), fresh_size(c, v, declare=False)) for v in sorted(mutated_opaque(c, [s])) if szname(v) in c.types]
     inner = tr_s(c, rest, k_fall, k_break)
+    for b in szb:
+        if uses_name(inner, b[0]):
+            c.extern(b[1], 'N')
+            binds.append(b)
     inner = ''.join('(let %s := %s in ' % b for b in binds) + inner + ')' * len(binds)
     if may_ret:
         ex, rv = 'hv%d_loop_returns' % n, 'hv%d_loop_rv' % n
@@ -786,3 +901,47 @@ def translate(name, params, ptypes, ret_type, body, consts, extern_types=None, d
         term = '(let acc : list (N * N) := nil in %s)' % term
     sig = [x.replace(': R)', ': %s)' % rt).replace('-> R)', '-> %s)' % rt) for x in sig]
     return 'Definition gen_%s %s : %s :=\n  %s.\n' % (ident(name), ' '.join(sig), rt, term), [i for (i, _) in c.externs] + [p for (p, _) in plist]
+
+
+def split_arrows(t):
+    """top-level split of a Coq type at '->'"""
+    parts, depth, cur = [], 0, ''
+    i = 0
+    while i < len(t):
+        ch = t[i]
+        if ch == '(':
+            depth += 1
+        elif ch == ')':
+            depth -= 1
+        if depth == 0 and t[i:i + 2] == '->':
+            parts.append(cur.strip())
+            cur = ''
+            i += 2
+            continue
+        cur += ch
+        i += 1
+    parts.append(cur.strip())
+    return parts
+
+
+def zero_of(t):
+    parts = split_arrows(t)
+    res = parts[-1]
+    z = {'N': '0', 'bool': 'false'}.get(res)
+    if z is None:
+        z = '(0, nil)' if res.startswith('(N * list') else '0'
+    return ('(fun %s => %s)' % (' '.join('_' for _ in parts[:-1]), z)) if len(parts) > 1 else z
+
+
+def env_module(name, fn, binders):
+    """Coq text of `Module <name>`: the record of the function's named parameters, `app`, an all-zero `default` and one
+    setter per field, so that hand-written files name only the fields they care about"""
+    out = ['Module %s.' % name]
+    out.append('  Record env := mk { %s }.' % ' ; '.join('%s : %s' % (b, t) for b, t in binders))
+    out.append('  Definition app (e : env) := %s %s.' % (fn, ' '.join('(%s e)' % b for b, _ in binders)))
+    out.append('  Definition default : env := mk %s.' % ' '.join(zero_of(t) for _, t in binders))
+    for i, (b, t) in enumerate(binders):
+        out.append('  Definition set_%s (v : %s) (e : env) : env := mk %s.' % (b, t, ' '.join('v' if j == i else '(%s e)' % bb for j, (bb, _) in enumerate(binders))))
+    out.append('  Ltac open_env := cbv beta zeta iota delta [app %s %s default %s fold_right].' % (fn, ' '.join(b for b, _ in binders), ' '.join('set_' + b for b, _ in binders)))
+    out.append('End %s.' % name)
+    return out
